@@ -184,3 +184,7 @@ Proof.
   destruct (mem x l1) eqn:E; apply IH; [exact ND|].
   apply NoDup_snoc; [exact ND|]. intro H. apply mem_In in H. congruence.
 Qed.
+
+(* readable attribute names: ASCII string literal -> code-point list *)
+From Coq Require Import String Ascii.
+Definition s2l (s : string) : str := map N_of_ascii (list_ascii_of_string s).
